@@ -255,6 +255,12 @@ impl BBox3D {
         let mut tx_max = (self.max.x - ray.origin.x) * inv_dir.x;
         /* END OF NON_SIMD */
 
+        if tx_min.is_nan() || tx_max.is_nan() {
+            // 0 * infinity: the origin is exactly on one of these two planes and the ray runs
+            // parallel to them, so they do not limit the ray
+            tx_min = Float::NEG_INFINITY;
+            tx_max = Float::INFINITY;
+        }
         if tx_min > tx_max {
             std::mem::swap(&mut tx_min, &mut tx_max);
         }
@@ -268,6 +274,12 @@ impl BBox3D {
         let mut ty_max = (self.max.y - ray.origin.y) * inv_dir.y;
         /* END OF NON-SIMD */
 
+        if ty_min.is_nan() || ty_max.is_nan() {
+            // 0 * infinity: the origin is exactly on one of these two planes and the ray runs
+            // parallel to them, so they do not limit the ray
+            ty_min = Float::NEG_INFINITY;
+            ty_max = Float::INFINITY;
+        }
         if ty_min > ty_max {
             std::mem::swap(&mut ty_min, &mut ty_max);
         }
@@ -294,6 +306,12 @@ impl BBox3D {
 
         let mut tz_min = (self.min.z - ray.origin.z) * inv_dir.z;
         let mut tz_max = (self.max.z - ray.origin.z) * inv_dir.z;
+        if tz_min.is_nan() || tz_max.is_nan() {
+            // 0 * infinity: the origin is exactly on one of these two planes and the ray runs
+            // parallel to them, so they do not limit the ray
+            tz_min = Float::NEG_INFINITY;
+            tz_max = Float::INFINITY;
+        }
         if tz_min > tz_max {
             std::mem::swap(&mut tz_min, &mut tz_max);
         }
